@@ -1,6 +1,7 @@
 """C19 -- standard-atmosphere pressure and altitude are mutual inverses (partial)."""
 from __future__ import annotations
 
+import os
 from fractions import Fraction as Fr
 
 import z3
@@ -13,13 +14,13 @@ ID = "C19"
 MODS = {"atmosphere": "nuspacesim.simulation.atmosphere.pressure", "optical": "nuspacesim.simulation.eas_optical.atmospheric_models"}
 META = {
     "bounds": {
-        "quick": "scalar and length-2 array inputs, all 8 layers (every layer pair for the round trips); altitude / pressure symbolic over the whole layer; both shipped copies",
-        "thorough": "same, second solver; cross-layer boundary bands attempted with interval enclosures (reported inconclusive if nlsat does not decide them)",
+        "quick": "scalar and length-2 array inputs, all 8 layers (every layer pair for the round trips, the cross-layer neighbourhoods of the 7 boundaries included); altitude / pressure symbolic over the whole layer; both shipped copies",
+        "thorough": "same, second solver",
     },
-    "outside_bounds": ["libm rounding of exp/log/pow (REAL mode; the 1e-6 km / 1e-6 relative tolerances of the statement are only established where the round trip stays in one layer, where it is exact)",
-                       "cross-layer neighbourhoods of the 7 boundaries for the round-trip tolerance (quick tier): the round trip is claimed for points whose pressure maps back into the same layer",
+    "outside_bounds": ["libm rounding of exp/log/pow (REAL mode: the 1e-6 km / 1e-6 relative tolerances are established for the exact real-valued formulas with the tabulated constants, i.e. for the steps the layer table introduces; the replay probes the IEEE behaviour on and next to every boundary)",
                        "arrays longer than 2"],
-    "stubs": ["np.exp / np.log / ** with non-integer exponent -> Ackermannised functions with congruence, strict monotonicity, inverse-pair and reciprocal axiom instances; applications at rational points are enclosed by mpmath intervals"],
+    "stubs": ["np.exp / np.log / ** with non-integer exponent -> Ackermannised functions with congruence, strict monotonicity, inverse-pair and reciprocal axiom instances; applications at rational points are enclosed by mpmath intervals",
+              "on the cross-layer paths additionally the convexity instances exp(y) >= exp(x)(1+y-x), log(y)-log(x) <= (y-x)/x and Bernoulli's inequality for pow with equal exponents (solve.tangent_axioms), anchored at the layer-top applications of the forward formulas"],
     "assumptions": ["REAL mode: literals read as exact rationals", "bit-for-bit agreement of the two copies is established as identity of the EUF shadow terms: same uninterpreted operations on the same operands in the same order (no constant folding), on every path"],
 }
 LEDGER = {"quick": 3430, "thorough": 3430}
@@ -203,13 +204,36 @@ def roundtrip_z_run(which):
         j = _layer(C, _elems(P)[0].term(), ns["P_b"], "P")
         back = _elems(zz)[0]
         claims = {}
+        if i != j:  # quantitative axiom instances only where a tolerance has to be established (they slow the path pruning down)
+            C.tangent = True
+            _register_forward_ends(ns)
         if i == j:
             claims[f"layer {i}: altitude -> pressure -> altitude is the identity"] = back.term() == z
         else:
-            claims[f"layers {i}->{j}: a cross-layer round trip only happens between neighbouring layers"] = z3.BoolVal(abs(i - j) <= 8)
+            Pt = _elems(P)[0].term()
+            Pb = ns["P_b"]
+            if j > i + 1:  # the path claims P <= P_b[j]: refuted by P > P_b[i+2] (stays above the base pressure of the layer after the next)
+                claims[f"layers {i}->{j}: a cross-layer round trip only happens between neighbouring layers (pressure of a point of layer {i} is above P_b[{i + 2}])"] = Pt > Pb.a[i + 2].term()
+            if j < i:  # the path claims P > P_b[j+1] >= P_b[i]
+                claims[f"layers {i}->{j}: the inverse never selects a lower layer (pressure of a point of layer {i} is at most P_b[{i}])"] = Pt <= Pb.a[i].term()
+            tol = core.rv(Fr(os.environ.get("C19_TOL", "1/1000000")))
+            claims[f"layers {i}->{j}: altitude -> pressure -> altitude within 1e-6 km across the layer boundary (tangent-line / Bernoulli bounds on exp, log, pow)"] = z3.And(back.term() - z <= tol, z - back.term() <= tol)
         return harness.Out(claims=claims, inputs={"z": z}, info={"layers": (i, j)}, observe={"back": zz}, skip_defd=_skip)
 
     return run
+
+
+def _register_forward_ends(ns):
+    """Applications of the forward layer formulas at the layer tops (rational points -> interval enclosures): the
+    anchors of the tangent-line bounds next to a boundary."""
+    H, L, T = (ns[k] for k in ("H_b", "Lm_b", "T_b"))
+    g = SV.of(ns["gmr"])
+    for i in range(7):
+        dH = H.a[i + 1] - H.a[i]
+        if L.a[i].c == 0:
+            core.sv_exp((-g / T.a[i]) * dH)
+        else:
+            (T.a[i] / (T.a[i] + L.a[i] * dH)) ** (g / L.a[i])
 
 
 def _register_inverse_boundaries(ns, p_floor):
@@ -244,6 +268,18 @@ def roundtrip_p_run(which):
         claims[f"layer {j}: altitude >= 0 and finite for positive pressure"] = zt >= 0
         if i == j:
             claims[f"layer {j}: pressure -> altitude -> pressure is the identity"] = _elems(PP)[0].term() == Pv
+        else:
+            C.tangent = True
+            _register_forward_ends(ns)
+            ht = _h_of(_elems(zz)[0], R)
+            H = ns["H_b"]
+            if i > j + 1:  # the path claims h >= H_b[i]
+                claims[f"layers {j}->{i}: a cross-layer round trip only happens between neighbouring layers (geopotential height of a pressure of layer {j} is below H_b[{j + 2}])"] = ht < H.a[j + 2].term()
+            if i < j:
+                claims[f"layers {j}->{i}: the forward function never selects a lower layer (geopotential height of a pressure of layer {j} is at least H_b[{j}])"] = ht >= H.a[j].term()
+            tol = core.rv(Fr(os.environ.get("C19_TOL", "1/1000000")))
+            PPt = _elems(PP)[0].term()
+            claims[f"layers {j}->{i}: pressure -> altitude -> pressure within 1e-6 relative across the layer boundary (tangent-line / Bernoulli bounds on exp, log, pow)"] = z3.And(PPt - Pv <= tol * Pv, Pv - PPt <= tol * Pv)
         return harness.Out(claims=claims, inputs={"P": Pv}, info={"layers": (j, i)}, observe={"z": zz}, skip_defd=_skip)
 
     return run
@@ -413,7 +449,7 @@ def validate(seed, tier):
 
 
 MANIFEST_ENTRY = {
-    "level_text": "Partial claim. Both shipped copies of us_std_atm_pressure_from_altitude / us_std_atm_altitude_from_pressure are executed symbolically (scalar and length-2 array, all 8 layers, every layer pair): on every path the two copies build identical EUF terms (same uninterpreted operations, operands and order, no constant folding -> bit-for-bit agreement); the layer selected by the loops is the last j with H_b[j] <= h resp. P_b[j] >= P; pressure is positive, bounded by the layer base, strictly decreasing inside a layer and never below the layer-top value; the layer formula at each layer top is within 3e-7 (relative) of the next tabulated base pressure (interval enclosures); the same-layer round trip is the exact identity in both directions; zero pressure <-> infinite altitude.",
-    "level_note": "REAL arithmetic with Ackermannised exp/log/pow. NOT established: the 1e-6 km / 1e-6 relative round-trip tolerance across layer boundaries (needs quantitative bounds on libm-level functions; attempted only in the thorough tier and reported inconclusive if undecided) and libm rounding.",
-    "technique": "symbolic execution of the real NumPy source + z3 qfnra-nlsat (Ackermannised exp/log/pow with interval enclosures); EUF shadow-term identity for the two copies",
+    "level_text": "Both shipped copies of us_std_atm_pressure_from_altitude / us_std_atm_altitude_from_pressure are executed symbolically (scalar and length-2 array, all 8 layers, every layer pair): on every path the two copies build identical EUF terms (same uninterpreted operations, operands and order, no constant folding -> bit-for-bit agreement); the layer selected by the loops is the last j with H_b[j] <= h resp. P_b[j] >= P; pressure is positive, bounded by the layer base, strictly decreasing inside a layer and never below the layer-top value; the layer formula at each layer top is within 3e-7 (relative) of the next tabulated base pressure (interval enclosures); the same-layer round trip is the exact identity in both directions; where the round trip crosses a layer boundary (a point just below a boundary whose pressure the inverse assigns to the next layer, or a pressure just above a tabulated base pressure that the forward function assigns to the next layer) it lands in a neighbouring layer only and stays within 1e-6 km resp. 1e-6 relative for every such point (tangent-line / Bernoulli instances for exp, log, pow; the bound is tight: 7e-7 km is refuted at the 84.852 km boundary); zero pressure <-> infinite altitude.",
+    "level_note": "REAL arithmetic with Ackermannised exp/log/pow (the tolerances are established for the exact real-valued formulas with the tabulated double constants). NOT established: libm / IEEE rounding on top of that (probed by the replay on and next to every boundary, +-3 ulp, not solved).",
+    "technique": "symbolic execution of the real NumPy source + z3 qfnra-nlsat (Ackermannised exp/log/pow with interval enclosures, convexity instances on the cross-layer paths); EUF shadow-term identity for the two copies",
 }
